@@ -250,6 +250,15 @@ pub fn run(_st: &mut State, op: &str, cmd: &Value) -> Value {
                                  "chunk_id": w32(c.chunk_id), "group": w32(c.layer_group_id as u32), "name": sbytes(&c.name), "layers": c.layers.len()})).collect::<Vec<Value>>()}))}))
             })
         }
+        "assets.dic" => {
+            // beyond the list: the word dictionary; words as UTF-16 code units
+            let b = crate::ops_patch::unhex(cmd["_hex"].as_str().unwrap_or(""));
+            guarded(|| {
+                value(opt(physis::dic::Dictionary::from_existing(&b), |d| {
+                    Value::Array(d.words.iter().map(|w| Value::Array(w.encode_utf16().map(Value::from).collect())).collect())
+                }))
+            })
+        }
         _ => toolerror(&format!("unknown op {op}")),
     }
 }
